@@ -28,9 +28,28 @@ def pick(o, n):
     return n - 1
 
 
+class Inode:
+    """file content lives in an inode; names point to inodes (rename moves the
+    inode, an open handle keeps writing into it whatever it is called by then)"""
+    __slots__ = ("text", "mtime")
+
+    def __init__(self, text, mtime):
+        self.text, self.mtime = text, mtime
+
+    def __getitem__(self, i):          # [text, mtime] view used by older code
+        return (self.text, self.mtime)[i]
+
+    def __eq__(self, o):
+        return isinstance(o, Inode) and (self.text, self.mtime) == (o.text, o.mtime)
+
+    def __iter__(self):
+        return iter((self.text, self.mtime))
+
+
 class Handle:
-    def __init__(self, fs, name):
+    def __init__(self, fs, name, inode=None):
         self.fs, self.name, self.buf, self.closed = fs, name, [], False
+        self.inode = inode
 
     def write(self, s):
         self.fs.op("write")
@@ -43,7 +62,7 @@ class Handle:
         self.fs.op("close")
         self.closed = True
         if not self.fs.dead:
-            self.fs.persist(self.name, "".join(self.buf))
+            self.fs.persist(self.inode, "".join(self.buf))
             self.fs.open_handles.remove(self)
 
     def __enter__(self):
@@ -92,13 +111,19 @@ class MFS:
             # representative boundary (nothing / a line boundary / mid-line / all)
             pts = sorted({0, len(data)} | {i + 1 for i, c in enumerate(data) if c == "\\n"} | {max(0, len(data) - 3), len(data) // 2})
             k = pts[min(pick(self.flush_choice, len(pts)), len(pts) - 1)] if not isinstance(self.flush_choice, int) or self.flush_choice < 99 else pts[-1]
-            self.persist(h.name, data[:k])
+            self.persist(h.inode, data[:k])
         self.open_handles = []
 
-    def persist(self, name, text):
+    def name_of(self, inode):
+        for n, i in self.files.items():
+            if i is inode:
+                return n
+        return "<unlinked>"
+
+    def persist(self, inode, text):
         self.tick()
-        self.files[name] = [text, self.clock]
-        self.trace.append(("persist", name, len(text)))
+        inode.text, inode.mtime = text, self.clock
+        self.trace.append(("persist", self.name_of(inode), len(text)))
 
     def new_process(self):
         self.dead = False
@@ -129,7 +154,7 @@ class MPath:
         if self.name not in self.fs.files:
             raise FileNotFoundError(self.name)
         import types
-        return types.SimpleNamespace(st_mtime=self.fs.files[self.name][1], st_size=len(self.fs.files[self.name][0]))
+        return types.SimpleNamespace(st_mtime=self.fs.files[self.name].mtime, st_size=len(self.fs.files[self.name].text))
 
     def open(self, mode="r"):
         self.fs.op("open")
@@ -138,13 +163,16 @@ class MPath:
         if "w" in mode or "x" in mode:
             if "x" in mode and self.name in self.fs.files:
                 raise FileExistsError(self.name)
-            self.fs.persist(self.name, "")          # truncation is immediate
-            h = Handle(self.fs, self.name)
+            if self.name not in self.fs.files:
+                self.fs.files[self.name] = Inode("", self.fs.clock)
+            inode = self.fs.files[self.name]
+            self.fs.persist(inode, "")              # truncation (of the existing inode) is immediate
+            h = Handle(self.fs, self.name, inode)
             self.fs.open_handles.append(h)
             return h
         if self.name not in self.fs.files:
             raise FileNotFoundError(self.name)
-        data = self.fs.files[self.name][0]
+        data = self.fs.files[self.name].text
         if "b" in mode:
             return io.BytesIO(data)
         return io.StringIO(data)
@@ -193,20 +221,32 @@ def native(fn, *a):
 def build_reference(content):
     """truth and the cache texts the REAL writers produce for this FASTA content"""
     fs = MFS(100, [1])
-    fs.files["x.fa"] = [content, 50]
+    fs.files["x.fa"] = Inode(content, 50)
     fi = mkindex(fs)
     fi.run_indexing()
-    cache = {k: v[0] for k, v in fs.files.items() if k != "x.fa"}
+    cache = {k: v.text for k, v in fs.files.items() if k != "x.fa"}
     return fi.index, fi.assembly, cache, list(fs.trace), fs.nops
 
 
 TRUTH1 = build_reference(V1)
 TRUTH2 = build_reference(V2)
 NOPS = TRUTH2[4]
-assert set(TRUTH2[2]) == {"x.fa.fai", "x.fa.agp"}, TRUTH2[2]
-# both cache files are (re)written together, .fai first
-_final = [t for t in TRUTH2[3] if (t[0] == "persist" and t[1] in ("x.fa.fai", "x.fa.agp") and t[2] > 0) or (t[0] == "replace")]
-assert [(t[2] if t[0] == "replace" else t[1]) for t in _final][-2:] == ["x.fa.fai", "x.fa.agp"], TRUTH2[3]
+
+
+def rebuild_writes_both_fai_first() -> bool:
+    """
+    post: _
+    """
+    # an uninterrupted indexing run leaves both cache files complete, and the LAST event that
+    # makes each of them appear under its name comes .fai first, .agp second
+    START()
+    trace = TRUTH2[3]
+    final = [(t[2] if t[0] == "replace" else t[1]) for t in trace
+             if (t[0] == "persist" and t[1] in ("x.fa.fai", "x.fa.agp")) or (t[0] == "replace" and t[2] in ("x.fa.fai", "x.fa.agp"))]
+    last_fai = max(i for i, n in enumerate(final) if n == "x.fa.fai")
+    last_agp = max(i for i, n in enumerate(final) if n == "x.fa.agp")
+    first_agp = min(i for i, n in enumerate(final) if n == "x.fa.agp")
+    return FIN(set(TRUTH2[2]) == {"x.fa.fai", "x.fa.agp"} and last_fai < first_agp and last_fai < last_agp)
 
 
 def is_truth(fi):
@@ -236,7 +276,7 @@ def load_ok(fs):
         return False
     if fs.trace:
         # something was written: then both cache files were rebuilt together, complete and current
-        cache = {k: v[0] for k, v in fs.files.items() if k in ("x.fa.fai", "x.fa.agp")}
+        cache = {k: v.text for k, v in fs.files.items() if k in ("x.fa.fai", "x.fa.agp")}
         if cache != TRUTH2[2]:
             return False
         touched = {t[2] if t[0] == "replace" else t[1] for t in fs.trace}
@@ -249,11 +289,11 @@ def setup(tf, o1, o2, has_fai, has_agp, ticks):
     """state after: index FASTA v1 (complete caches, older than the rewrite) ->
     optional deletions -> FASTA rewritten with new content at the LATER time tf"""
     fs = MFS(tf, ticks)
-    fs.files["x.fa"] = [V2, tf]
+    fs.files["x.fa"] = Inode(V2, tf)
     if has_fai:
-        fs.files["x.fa.fai"] = [TRUTH1[2]["x.fa.fai"], tf - o1]
+        fs.files["x.fa.fai"] = Inode(TRUTH1[2]["x.fa.fai"], tf - o1)
     if has_agp:
-        fs.files["x.fa.agp"] = [TRUTH1[2]["x.fa.agp"], tf - o2]
+        fs.files["x.fa.agp"] = Inode(TRUTH1[2]["x.fa.agp"], tf - o2)
     return fs
 
 
@@ -316,12 +356,12 @@ def stale_or_missing_is_rebuilt(tf: int, a: int, b: int, kind_fai: int, kind_agp
     # older than the rewrite (histories are sequential), so kind 1 implies mtime < tf.
     START()
     fs = MFS(tf, [t0, t1])
-    fs.files["x.fa"] = [V2, tf]
+    fs.files["x.fa"] = Inode(V2, tf)
     kf, ka = pick(kind_fai, 3), pick(kind_agp, 3)
     if kf:
-        fs.files["x.fa.fai"] = [(TRUTH1 if kf == 1 else TRUTH2)[2]["x.fa.fai"], a]
+        fs.files["x.fa.fai"] = Inode((TRUTH1 if kf == 1 else TRUTH2)[2]["x.fa.fai"], a)
     if ka:
-        fs.files["x.fa.agp"] = [(TRUTH1 if ka == 1 else TRUTH2)[2]["x.fa.agp"], b]
+        fs.files["x.fa.agp"] = Inode((TRUTH1 if ka == 1 else TRUTH2)[2]["x.fa.agp"], b)
     if (kf == 1 and not a < tf) or (ka == 1 and not b < tf):
         return FIN(True)
     ok = load_ok(fs)
@@ -350,7 +390,7 @@ def visible_states(has_fai, has_agp):
                 fi.run_indexing()
             except KillProcess:
                 pass
-            st = tuple((n, tuple(fs.files[n]) if n in fs.files else None) for n in ("x.fa.fai", "x.fa.agp"))
+            st = tuple((n, (fs.files[n].text, fs.files[n].mtime) if n in fs.files else None) for n in ("x.fa.fai", "x.fa.agp"))
             # the exact timestamp of a write does not matter to a reader, only its content and
             # whether it is newer than the FASTA: keep one representative per such class
             key = tuple((n, None if v is None else (v[0], v[1] > 1000)) for (n, v) in st)
@@ -376,7 +416,7 @@ def reader_vs_writer(has_fai, has_agp, incs):
             if v is None:
                 fs.files.pop(n, None)
             else:
-                fs.files[n] = list(v)
+                fs.files[n] = Inode(v[0], v[1])
 
     def op(what):
         # before each file operation of the reader the writer may have advanced
@@ -473,6 +513,8 @@ def conditions(tier):
              "-> optional deletion of either cache file -> a fresh auto-load; clock ticks between file operations symbolic (>= 0: same-granule timestamps included)",
              env=ENV, encodes=ENC) for k in ("".join(map(str, (a, b, c, d))) for a in (0, 1) for b in (0, 1) for c in (0, 1) for d in (0, 1))
     ] + [
+        Cond("uninterrupted_rebuild_writes_fai_then_agp", HEAD, "rebuild_writes_both_fai_first", 120,
+             "the real run_indexing on the model FS (concrete): both cache files complete, .fai in place before .agp is touched", env=ENV, encodes=ENC),
         Cond("missing_or_not_strictly_newer_is_rebuilt_together", HEAD, "stale_or_missing_is_rebuilt", 900,
              "each cache file absent / cache of the old content / cache of the current content, with ARBITRARY symbolic mtimes: rebuilt (both, complete) exactly when one is missing or not strictly newer than the FASTA; result = truth",
              env=ENV, encodes=ENC),
